@@ -425,7 +425,7 @@ def lopsided(rng, z, every=8):
     return (z.real + 1j * z.imag * f) if rng.integers(2) else (z.real * f + 1j * z.imag)
 
 
-def degenerate_rows(rng, a, every=5):
+def degenerate_rows(rng, a, every=5, rows_only=False):
     """with probability 1/every, a degenerate but valid variant of a record: for (2, n) data one polarisation exactly zero, both
     polarisations identical, or one the negative of the other; for any data everything zero or a constant. Anything that infers
     "no noise" / "same in both polarisations" from part of a record and applies it to the rest shows up here."""
@@ -441,6 +441,8 @@ def degenerate_rows(rng, a, every=5):
             a[r] = a[1 - r]
         else:
             a[r] = -a[1 - r]
+        return a
+    if rows_only:
         return a
     if k == 4:
         return np.zeros_like(a)
